@@ -96,7 +96,7 @@ theorem code_inputValues (ins : List (InVar Rat × VarValue Rat)) :
     | .ok a => ∃ σ, Gen.Code.Engine_input_values.run ins {} = .ok σ ∧ σ.ret = some a :=
   Op.Engine.code_inputValues ins
 
-/-- **Tie A.**  The getter of `Engine.output_values` as repaired (F12, F15: `np.broadcast_arrays` of `np.atleast_1d` of
+/-- **Tie A.**  The getter of `Engine.output_values` as repaired (F12, F17: `np.broadcast_arrays` of `np.atleast_1d` of
     the values of the input variables followed by those of the output variables, the output columns kept, then
     `np.column_stack`): `ValueError` exactly when the model `outputValues` says so (two values – of input or output
     variables – whose numbers of rows differ and are both other than 1), otherwise the model's array – every output
@@ -107,7 +107,7 @@ theorem code_outputValues (ins : List (InVar Rat × VarValue Rat)) (outs : List 
     | .ok a => ∃ σ, Gen.Code.Engine_output_values.run ins outs {} = .ok σ ∧ σ.ret = some a :=
   Op.Engine.code_outputValues ins outs
 
-/-- the case F12 and F15 are about: every value – of an input variable or of an output variable – has the `n` rows of
+/-- the case F12 and F17 are about: every value – of an input variable or of an output variable – has the `n` rows of
     the batch (`batchValues` has one row per row of the batch) or a single row (an input given as a float; an output
     variable that is disabled or received no activations), and `n` is 1 or SOME value, of an input variable or of an
     output variable, has `n` rows: `output_values` is defined and has `n` rows, the single rows repeated -/
@@ -117,7 +117,7 @@ theorem outputValues_batch (ins outs : List (VarValue Rat)) (n : Nat) (hne : out
     outputValues ins outs = .ok (ofColumns n (outs.map (fun v => stretch n v.rows))) :=
   Op.Engine.outputValues_batch ins outs n hne hc hn
 
-/-- **F15** (false before the repair, when the result had ONE row and `Engine.values` raised): NO output variable holds
+/-- **F17** (false before the repair, when the result had ONE row and `Engine.values` raised): NO output variable holds
     a value per row – all of them disabled, no rule block enabled, no rule concluding them – while the input variables
     hold the `n` rows of the batch: `output_values` has `n` rows, each made of the single values the output variables
     hold -/
@@ -204,7 +204,7 @@ example : (match getItem (α := ℚ) [] [] [] (.index 0) with | .error .value =>
 /-- `Engine.values` of an engine with input variables and no output variables raises -/
 example : (match allValues (α := ℚ) [.scalar .nan] [] with | .error .value => true | _ => false) = true := by decide
 
-/-- F15, non-vacuity: a batch of three rows on one input variable, two output variables that hold a single NaN / a single
+/-- F17, non-vacuity: a batch of three rows on one input variable, two output variables that hold a single NaN / a single
     default value: three rows -/
 example : (match outputValues (α := ℚ) [.vector [.fin 1, .fin 2, .fin 3]] [.scalar .nan, .vector [.fin (1/2)]] with
     | .ok (.matrix c rows) => decide (c = 2 ∧ rows = [[.nan, .fin (1/2)], [.nan, .fin (1/2)], [.nan, .fin (1/2)]])
